@@ -6,6 +6,7 @@ import (
 	"net"
 	"strings"
 	"testing"
+	"time"
 	"unicode"
 
 	"github.com/cybergarage/go-redis/redis"
@@ -13,6 +14,7 @@ import (
 
 	"verif/internal/connsim"
 	"verif/internal/resp"
+	"verif/internal/sched"
 )
 
 // ---- C08: password gate ----
@@ -27,6 +29,10 @@ type c08Case struct {
 	Conns    int       `json:"conns"`
 	Steps    []c08Step `json:"steps"`
 	TLS      bool      `json:"tls,omitempty"` // the connections are TLS connections (served with a TLS state, no certificate rule configured)
+	// Prev: the server ran with this password before; it was then reconfigured (SetRequirePass) and restarted with Password
+	Prev string `json:"prev,omitempty"`
+	// DuringStop: the steps are issued while Server.Stop is in progress (listeners closed, connections not yet swept)
+	DuringStop bool `json:"during_stop,omitempty"`
 }
 
 // tlsServed serves scripted connections the way the TLS listener's connections are served after their handshake.
@@ -71,11 +77,22 @@ func (c c08Case) describe() string {
 func evalC08(c c08Case) *Failure {
 	srv, rec := newRecServer()
 	srv.SetPort(0)
+	if c.Prev != "" {
+		srv.SetRequirePass(c.Prev)
+		if err := srv.Start(); err != nil {
+			return failf("harness|start", "Start: %v", err)
+		}
+		srv.Stop()
+	}
 	srv.SetRequirePass(c.Password)
 	if err := srv.Start(); err != nil { // Start installs the password authenticator - the genuine configuration path
 		return failf("harness|start", "Start: %v", err)
 	}
-	defer srv.Stop()
+	stopRelease := func() {}
+	defer func() {
+		stopRelease()
+		srv.Stop()
+	}()
 	var served connsim.Server = srv
 	if c.TLS {
 		served = tlsServed{srv}
@@ -88,6 +105,38 @@ func evalC08(c c08Case) *Failure {
 	what := c.describe()
 	if c.TLS {
 		what = "TLS connections; " + what
+	}
+	if c.Prev != "" {
+		what = fmt.Sprintf("password changed from %q and the server restarted; ", c.Prev) + what
+	}
+	if c.DuringStop {
+		// park Stop between closing the listeners and sweeping the connections: the connections are still served
+		lifecycleMu.Lock()
+		ts := sched.NewTurnstile()
+		redis.VerifSetPointHook(ts.Hook)
+		ts.Arm("stop.mid", 1)
+		stopDone := make(chan struct{})
+		go func() { srv.Stop(); close(stopDone) }()
+		parked, err := ts.WaitParked("stop.mid", stepTimeout)
+		released := false
+		stopRelease = func() {
+			if !released {
+				released = true
+				ts.ReleaseAll()
+				select {
+				case <-stopDone:
+				case <-time.After(serveTimeout()):
+				}
+				redis.VerifSetPointHook(nil)
+				lifecycleMu.Unlock()
+			}
+		}
+		if err != nil {
+			stopRelease()
+			return failf("harness|sched", "%v", err)
+		}
+		_ = parked
+		what = "while Stop is between closing the listeners and sweeping the connections; " + what
 	}
 	authed := make([]bool, c.Conns)
 	db := make([]int, c.Conns)
@@ -258,7 +307,7 @@ func TestC08(t *testing.T) {
 		return nt
 	}
 	run := func(c c08Case, class string) bool {
-		h.Col.Case(nontrivial(c), []byte(fmt.Sprint(c.TLS, c.describe())), class)
+		h.Col.Case(nontrivial(c), []byte(fmt.Sprint(c.TLS, c.Prev, c.DuringStop, c.describe())), class)
 		if h.Col.WantSample() {
 			h.Col.Sample(map[string]any{"case": c.describe(), "class": class})
 		}
@@ -366,11 +415,17 @@ twoconn:
 			alpha = append(alpha, []*resp.Bin{bp("AUTH"), bp(pw)})
 		}
 		c := c08Case{Password: pw, Conns: rapid.IntRange(1, 3).Draw(rt, "conns"), TLS: rapid.IntRange(0, 3).Draw(rt, "tls") == 0}
+		switch rapid.IntRange(0, 7).Draw(rt, "env") {
+		case 0:
+			c.Prev = rapid.SampledFrom([]string{"old-password", pw + "x", pw[:1]}).Draw(rt, "prev")
+		case 1:
+			c.DuringStop = true
+		}
 		steps := rapid.IntRange(1, 8*c.Conns).Draw(rt, "steps")
 		for i := 0; i < steps; i++ {
 			c.Steps = append(c.Steps, c08Step{Conn: rapid.IntRange(0, c.Conns-1).Draw(rt, "who"), Req: alpha[rapid.IntRange(0, len(alpha)-1).Draw(rt, "req")]})
 		}
-		h.Col.Case(nontrivial(c), []byte(c.describe()), fmt.Sprintf("random-%dconn", c.Conns))
+		h.Col.Case(nontrivial(c), []byte(fmt.Sprint(c.TLS, c.Prev, c.DuringStop, c.describe())), fmt.Sprintf("random-%dconn", c.Conns))
 		h.Fail(rt, "c08.seq", c, evalC08(c))
 	})
 }
